@@ -202,6 +202,20 @@ def case_cell(ctx, p):
             # argument forms users pass: lists, tuples, integer and float arrays
             s2 = mod.sintl(np.array(c), np.array(h, dtype=float))
             mon.close("workload:%s.sintl-array-args" % m, s2, s, rtol=1e-12, atol=1e-15)
+        # a refinement loop: the caller's own list / array is updated in place and handed in again (the contracts judge every
+        # call against the values the object holds at that moment)
+        for held in (list(c), np.array(c, float)):
+            h0 = p["hkls"][0]
+            mod.sintl(held, h0)
+            mod.form_b_mat(held)
+            mod.cell_volume(held)
+            held[0] = held[0] * 1.0731
+            held[2] = held[2] * 0.9127
+            mod.sintl(held, h0)
+            mod.form_b_mat(held)
+            mod.cell_volume(held)
+            mod.form_a_mat(held)
+            mod.cell_invert(held)
 
 
 def case_embedded(ctx, p):
